@@ -15,7 +15,7 @@ import random
 import numpy as np
 
 from checks.c02 import rand_layout
-from harness import alpha, compare, core, gamma, shims, tlc, util
+from harness import alpha, compare, core, gamma, gamma_chk, shims, tlc, util
 
 RECIPE = os.path.join(os.path.dirname(os.path.dirname(os.path.abspath(__file__))), "harness", "recipes", "r_u1.py")
 
@@ -45,8 +45,30 @@ def run_history(chk, sc, cfgseed, nlev):
         lays = [rand_layout(rng, len(c)) for c in classes]
         aps[src] = gamma.make_ap(src, fields, classes, lays, ndims=3, time=cfg_.time)
         gamma.write_plotfile(os.path.join(d, src), aps[src], cfg_, reg)
-    ref = alpha.content(alpha.abstract(os.path.join(d, "A"), reg))
+    refs = {"m": alpha.content(alpha.abstract(os.path.join(d, "A"), reg))}
     digests = {s: alpha.tree_digest(os.path.join(d, s)) for s in ("A", "B")}
+    if any(h["src"] == "K" or h.get("src2") == "K" for h in sc["hist"]):
+        # "K": a plotfile written by the real chk2plt from a synthetic checkpoint (its own mesh); its correctness is C17's
+        # business, here its stored arrays simply become the source tokens <<"src", "K", i>>
+        from amr_kitchen.chk2plt import chk2plt
+        mesh = gamma_chk.nested_mesh([[1, 2, 1][:rng.randint(2, 3)] for _ in range(1)] + [[1]] * (nlev - 1))
+        lays = []
+        for l in range(nlev):
+            nb = len(mesh["levels"][l])
+            lays.append({k: rand_layout(rng, nb) for k in ("state", "gradp", "ir")})
+        gamma_chk.write_checkpoint(os.path.join(d, "chk00007"), mesh, lays, cfg_, ns=2, nghost=1 + cfgseed % 3)
+        with shims.pool_shim(shims.Scheduler(default="random", rng=random.Random(cfgseed))), core.quiet():
+            chk2plt(os.path.join(d, "chk00007"), species=["H2", "O2"], gradp=False, pltdir=os.path.join(d, "K"))
+        AK = alpha.abstract(os.path.join(d, "K"))
+        if alpha.wellformed(AK):
+            return "chk2plt's output is not a well-formed plotfile: %s" % "; ".join(alpha.wellformed(AK)[:2])
+        for l, Cl in enumerate(AK["lev"]):
+            for b, (fn, off) in enumerate(Cl["fod"], 1):
+                fab = alpha.read_fab_at(os.path.join(d, "K", Cl["dir"], fn), off)
+                for i, arr in enumerate(fab["arrays"], 1):
+                    reg.add(("K", l, b, i), np.array(arr), strict=False)
+        refs["mk"] = alpha.content(alpha.abstract(os.path.join(d, "K"), reg))
+        digests["K"] = alpha.tree_digest(os.path.join(d, "K"))
     for i, (h, exp) in enumerate(zip(sc["hist"], sc["expect"])):
         src, out = os.path.join(d, h["src"]), os.path.join(d, h["out"])
         sched = shims.Scheduler(default="random", rng=random.Random(cfgseed + i))
@@ -82,7 +104,7 @@ def run_history(chk, sc, cfgseed, nlev):
         if H["finest"] + 1 != exp["nlev"]:
             return "step %d %s: %d levels, expected %d" % (i + 1, h["op"], H["finest"] + 1, exp["nlev"])
         C = alpha.content(A)
-        diff = compare.compare_meta(C, ref, exp["nlev"])
+        diff = compare.compare_meta(C, refs[exp.get("mesh", "m")], exp["nlev"])
         if diff:
             return "step %d %s: %s" % (i + 1, h["op"], diff)
         for l in range(exp["nlev"]):
@@ -122,18 +144,19 @@ def run(chk, replay):
         c = {"INIT": "Init", "NEXT": "Next", "CONSTANTS": {"MaxOps": maxops, "NLev": nlev},
              "INVARIANTS": ["AllValidInputs", "StrainAllIsIdentity", "CookThenCombineAddsOneField", "Emit"],
              "PROPERTIES": ["NothingOverwritten"]}
+        c["CONSTANTS"]["WithK"] = "TRUE"
         r = chk.add_tlc(tlc.run("MC_C14", c, timeout=2400), what)
         if r.violated:
             chk.note_drift("TLC: %s violated in Kitchen.tla (%s)" % (r.violated, what))
         scenarios += r.emitted
     if chk.tier == "thorough":
-        c = {"INIT": "Init", "NEXT": "Next", "CONSTANTS": {"MaxOps": 4, "NLev": nlev},
+        c = {"INIT": "Init", "NEXT": "Next", "CONSTANTS": {"MaxOps": 4, "NLev": nlev, "WithK": "TRUE"},
              "INVARIANTS": ["AllValidInputs", "StrainAllIsIdentity", "CookThenCombineAddsOneField", "Emit"]}
         r = chk.add_tlc(tlc.run("MC_C14", c, timeout=600, simulate=400, depth=5, seed=chk.seed + 1, workers=1), "histories of length 4 (simulation)")
         scenarios += r.emitted
     if not scenarios:
         raise core.MachineryError("TLC emitted no histories")
-    cap = 600 if chk.tier == "quick" else 6000
+    cap = 700 if chk.tier == "quick" else 6000
     chosen = util.select(scenarios, cap, chk.rng)
     chk.exhaustive = len(chosen) == len(scenarios)
     for sc in chosen:
